@@ -1,11 +1,11 @@
 package eng
 
 import (
+	"encoding/hex"
 	"fmt"
 	"go/constant"
 	"go/token"
 	"go/types"
-	"encoding/hex"
 	"math"
 	"sort"
 	"strconv"
@@ -1645,7 +1645,6 @@ func ConstInt64(v constant.Value) (int64, bool) {
 	}
 	return constant.Int64Val(v)
 }
-
 
 func stringsOf(v any) ([]string, bool) {
 	sl, ok := v.(*ESlice)
